@@ -127,6 +127,8 @@ for _prim in PRIMS:
 
 
 # ----------------------------------------------------------------------------- operations
+@scenario("C10", [ops.UNION + ".__call__", ops.CUT + ".__call__", ops.UNION + "._get_volume", ops.CUT + "._get_volume"], configs=["union", "cut"], bounded=BOUND, name="declared_disjoint_unions_and_contained_cuts_keep_their_volume_rule_when_partially_evaluated")
+@scenario("C05", [ops.UNION + ".__call__", ops.CUT + ".__call__", ops.INTER + ".__call__"], configs=["union", "cut", "intersection"], bounded=BOUND, name="partially_evaluated_boolean_operations_keep_their_membership_rule")
 @scenario("C17", [ops.UNION + ".__call__", ops.CUT + ".__call__", ops.INTER + ".__call__", ops.UNION + ".__init__", ops.CUT + ".__init__", ops.INTER + ".__init__"], configs=["union", "cut", "intersection"], bounded=BOUND)
 def boolean_partial_evaluation(S):
     op = S.cfg
@@ -346,3 +348,46 @@ def interval_single_boundary_point_partial_evaluation(S):
         t = tensor_of(out[1])
         want = (lo if S.cfg == "left" else up).value_terms([t0])[0]
         S.forall("samples-are-the-end-point-at-the-value", Tensor(t), lambda q: zreal(t.at(q)) == want)
+
+
+SBP = DPKG + "domain1D.interval.IntervalSingleBoundaryPoint"
+
+for _prop in ("C05", "C06", "C17"):
+    def _single_end(S, _prop=_prop):
+        """Interval.boundary_left / boundary_right (one end point as a boundary object), used directly and after
+        partial evaluation with a value the bounds do not depend on (`bd(a=...)`, the form that works on the current
+        tree -- see F21 for bounds that do depend on it):
+          membership (C05): accepts x = lb(t) (left) resp. ub(t) (right) of the row's own parameters, rejects points
+                            farther than the isclose tolerance from it -- in particular the OTHER end;
+          normal (C06):     -1 at the left end, +1 at the right end, one row per point;
+          (C17)             the evaluated object answers like the original."""
+        side, how = S.cfg.split("/")
+        lo = RowFn("lower_bound", ["t"], 1, {"t": 1})
+        up = RowFn("upper_bound", ["t"], 1, {"t": 1})
+        dom = S.new(DPKG + "domain1D.interval.Interval", S.new(R1, "x"), lo, up)
+        bd = S.getattr(dom, "boundary_left" if side == "left" else "boundary_right")
+        if how == "evaluated":
+            bd = S.call(bd, a=S.tensor("A0", [1, 1]))
+        N = S.int("N", 1)
+        X, Tt = S.tensor("X", [N, 1]), S.tensor("tt", [N, 1])
+        pts, params = S.new(POINTS, X, S.new(R1, "x")), S.new(POINTS, Tt, S.new(R1, "t"))
+        tq = lambda q: zreal(Tt.val.at([q[0], ()]))
+        xq = lambda q: zreal(X.val.at([q[0], ()]))
+        own = (lambda q: lo.value_terms([tq(q)])[0]) if side == "left" else (lambda q: up.value_terms([tq(q)])[0])
+        other = (lambda q: up.value_terms([tq(q)])[0]) if side == "left" else (lambda q: lo.value_terms([tq(q)])[0])
+        absz = lambda e: z3.If(e >= 0, e, -e)
+        if _prop in ("C05", "C17"):
+            res = S.method(bd, "_contains", pts, params).val
+            ok = res.rank == 2 and res.shape[1].is_one and res.shape[0].size_term() == zint(N)
+            S.ensure("one-truth-value-per-row", ok)
+            if ok:
+                S.forall("accepts-its-own-end-point", Tensor(res), lambda q: z3.Implies(xq(q) == own(q), res.at([q[0], ()])))
+                S.forall("rejects-beyond-tolerance-in-particular-the-other-end", Tensor(res), lambda q: z3.Implies(res.at([q[0], ()]), absz(xq(q) - own(q)) <= core.realval(1e-8) + core.realval(1e-5) * absz(own(q))))
+        if _prop in ("C06", "C17"):
+            nrm = S.method(bd, "normal", pts, params).val
+            ok = nrm.rank == 2 and nrm.shape[1].is_one and nrm.shape[0].size_term() == zint(N)
+            S.ensure("one-normal-per-point", ok)
+            if ok:
+                S.forall("outward-unit-normal-of-this-end", Tensor(nrm), lambda q: zreal(nrm.at([q[0], ()])) == (-1 if side == "left" else 1))
+    _single_end.__name__ = "interval_end_point_objects_membership_and_normal"
+    scenario(_prop, [SBP + "._contains", SBP + ".normal", SBP + ".__call__", SBP + ".__init__"], configs=[f"{s}/{h}" for s in ("left", "right") for h in ("plain", "evaluated")], bounded=BOUND)(_single_end)
